@@ -24,6 +24,9 @@ META = dict(
     ),
     not_decided="value equality of C results with the Rust API (wrappers are thin; R5 only fixes which method is called)",
 )
+META["explanation"] += (
+    " Added after the independent seeding rounds 2-3: " 'R7 every (pointer, length) pair passed OUT to a C callback takes the length from the very buffer whose pointer is passed. R8 the engine mask holds only real token ids (clauses adopted from C16-R1). Helper extraction inside ffi.rs is transparent (null obligations are charged to call sites, local helpers are analysed as part of the extern fn).'
+)
 
 LEN_ELEM = ("core::slice::<impl [T]>::len", "alloc::vec::Vec::<T, A>::len", "core::str::<impl str>::len", "alloc::string::String::len")
 ASPTR = ("core::slice::<impl [T]>::as_ptr", "alloc::vec::Vec::<T, A>::as_ptr", "core::str::<impl str>::as_ptr", SV + "as_ptr")
